@@ -136,6 +136,19 @@ PROPS = {
         partial="independence of allocation addresses is not a theorem (no heap model yet): it is covered only in that the snapshots are address-free and five runs of each history, whose allocations differ, must coincide",
         assumptions=["the five BuildHashers of the harness stand for 'every hasher'; a hasher that panics or is not a function is C18's subject"],
     ),
+    "C19": dict(
+        custom="c19",
+        level_text="A theorem cannot quantify over Rust client programs; what is decided is a proved sufficient condition on the signatures, over a table regenerated from the sources on every run (tools/sig_extract.py: every fn whose result mentions a reference or lifetime, every unsafe impl Send/Sync with macro expansion, every iterator's Item type). Coq theorems: every public or trait method ties each lifetime of its result to the borrow of the receiver (elision, or the receiver's own named lifetime, or a lifetime of the impl block) and hands out &mut only from &mut self; every unsafe Send/Sync impl asks Sync of what is handed out by & and Send of what is handed out by &mut; the boolean criterion is proved to reflect the stated relation. The tie to the compiler: per method and per impl, client probe programs (hold across mutation, outlive the cache, two mutable results, cross-thread with Cell / Rc) and positive controls are compiled against /repo and rustc's verdict must agree with the criterion; a probe that compiles is the replay.",
+        props_files=[],
+        theorems={"C19": ["C19_signatures_sound", "C19_markers_sound", "C19_no_clone_of_mutable_iterators", "C19_table_nontrivial", "C19_criterion"]},
+        slices=dict(quick=[], thorough=[]),
+        monitors=[],
+        technique="Coq proof of a sufficient condition over a signature table translated from the sources on every run + compile-time probe programs",
+        partial="the quantifier 'all safe client programs' is reached only through the sufficient condition (sound signatures + rustc's borrow checker + bodies that justify the stated lifetimes, which is C03's subject); RawLRU: Sync requiring only E: Send of the callback is outside the property's wording and not judged",
+        trusted_extra=["tools/sig_extract.py (syntactic translator: comment/test stripping, textual expansion of `$($t:ty),*` macros) and tools/probe_gen.py",
+                       "rustc's borrow checker, lifetime elision and auto-trait rules"],
+        assumptions=["function bodies justify the lifetimes their signatures state (the unsafe transmutes/raw-pointer reborrows inside raw.rs are C03's subject)"],
+    ),
     "C20": dict(
         level_text='Coq theorems over an executable model of SampledLFU: after every sequence of increment (also on a tracked key), update, remove, clear, update_max_cost, room_left(c) = max_cost - sum of recorded costs - c; update/remove report exactly whether the key was tracked and its cost; fill_sample returns its input followed by distinct tracked pairs up to the sample size, for every hash-map iteration order. Tied to /repo by differential execution.',
         props_files=["C20"],
